@@ -51,6 +51,11 @@ impl TryFrom<crate::Instant> for DateTime<Utc> {
     type Error = TimeError;
 
     fn try_from(time: crate::Instant) -> Result<Self, Self::Error> {
+        // an `Instant` received from the shell is not validated; nanos >= 1e9 must not be
+        // reinterpreted as a chrono leap second
+        if u64::from(time.nanos) >= NANOS_PER_SEC {
+            return Err(TimeError::InvalidInstant);
+        }
         let seconds = i64::try_from(time.seconds).map_err(|_| TimeError::InvalidInstant)?;
         DateTime::<Utc>::from_timestamp(seconds, time.nanos).ok_or(TimeError::InvalidInstant)
     }
